@@ -1381,6 +1381,28 @@ pub fn gen_unit(t: &mut Tape, gates: &Gates, profile: &Profile) -> Unit {
     gen_unit_with(t, gates, profile, None)
 }
 
+/// A unit with one planted fault of the given kind: units are drawn from tapes derived from
+/// `base` until one has a site for the kind (consumers that pick "a fault of the unit" otherwise
+/// see the common kinds almost always and the rare ones almost never).
+pub fn unit_with_fault_of(kind: FaultKind, base: &[u8], gates: &Gates, profile: &Profile) -> Option<Unit> {
+    for attempt in 0..64u8 {
+        let mut key = base.to_vec();
+        key.push(attempt);
+        let sub = crate::tape::derived(&key, 160);
+        let unit = gen_unit(&mut Tape::new(&sub), gates, profile);
+        let n = unit.sites[kind.index()];
+        if n == 0 {
+            continue;
+        }
+        let site = (crate::tape::fnv(&sub) % n as u64) as usize;
+        let fu = gen_unit_with(&mut Tape::new(&sub), gates, profile, Some((kind, site)));
+        if fu.planted.is_some() {
+            return Some(fu);
+        }
+    }
+    None
+}
+
 pub fn lower(u: &Unit) -> Library {
     u.lib.clone()
 }
